@@ -132,6 +132,11 @@ func c01total(id string, s *Scn, optName string) core.Outcome {
 		fmt.Fprintf(os.Stderr, "C01DBG %s: files=%v err=%v\n", id, s.Files, err)
 	}
 	cls := "ok"
+	if pe, ok := err.(*core.PanicError); ok && pe.Val == UnboundedRecursion {
+		return core.Outcome{Class: "unbounded", Sample: map[string]any{"case": id, "files": s.Files},
+			Viol: &core.Violation{Key: "unbounded-recursion:" + strings.SplitN(id, "/", 2)[0], Msg: id + ": " + UnboundedRecursion,
+				Detail: map[string]any{"files": s.Files}}}
+	}
 	if pe, ok := err.(*core.PanicError); ok {
 		oc := "default"
 		if optName != "default" {
@@ -677,10 +682,45 @@ func c01refcycles(c *core.Ctx) {
 			inc[k] = files
 		}
 	}
+	// every spelling of the path of every edge of a cycle of length 1..2 (relative, through another directory, absolute,
+	// absolute but not in canonical form), short and long syntax
+	spell := []struct{ name, pre string }{{"dot", "./"}, {"bare", ""}, {"updown", "./d/../"}, {"abs", "${ROOT}/"}, {"abs-dot", "${ROOT}/./"}, {"abs-updown", "${ROOT}/d/../"}, {"abs-slashes", "${ROOT}//"}}
+	for n := 1; n <= 2; n++ {
+		tot := 1
+		for i := 0; i < n; i++ {
+			tot *= 2 * len(spell)
+		}
+		for code := 0; code < tot; code++ {
+			files := map[string]string{"d/.keep": ""}
+			x := code
+			var used []string
+			allDot := true
+			for i := 0; i < n; i++ {
+				long := x%2 == 1
+				x /= 2
+				sp := spell[x%len(spell)]
+				x /= len(spell)
+				allDot = allDot && sp.name == "dot"
+				target := sp.pre + names[(i+1)%n]
+				entry := "  - " + target + "\n"
+				nm := sp.name
+				if long {
+					entry = "  - path: " + target + "\n"
+					nm += "-long"
+				}
+				used = append(used, nm)
+				files[names[i]] = "include:\n" + entry + fmt.Sprintf("services:\n  s%d: {image: i}\n", i)
+			}
+			if allDot {
+				continue // covered above
+			}
+			inc[fmt.Sprintf("spelled/n%d/%s", n, strings.Join(used, "+"))] = files
+		}
+	}
 	for _, k := range sortedKeys(inc) {
 		k := k
 		c.Do("includecycle/"+k, func() core.Outcome {
-			out := c01total("includecycle/"+k, &Scn{Files: inc[k], Main: []string{"compose.yaml"}}, "default")
+			out := c01total("includecycle/"+k, &Scn{Files: inc[k], Main: []string{"compose.yaml"}, Env: map[string]string{"ROOT": RootToken}}, "default")
 			if out.Viol == nil && strings.HasSuffix(out.Class, "/ok") {
 				out.Viol = &core.Violation{Key: "reference-cycle-accepted:include", Msg: k + ": an include cycle loads without error"}
 			}
